@@ -131,9 +131,12 @@ def observed_ops(rf, sp, kind, samples=True, readonly=True, post=True, cap=None,
     ops.append(["drive", plan, cap])
     if post:
         for _ in range(rf.randint(0, 3)):
-            c = rf.wchoice([("iterate", 3), ("sample", 2), ("ro", 1)])
+            c = rf.wchoice([("iterate", 3), ("sample", 2), ("ro", 1), ("empty", 1)])
             if c == "iterate":
                 ops += [["iterate"], ["observe"]]
+            elif c == "empty":
+                # an empty batch after the run: performs nothing, reports what is_complete() reports
+                ops += [["iterate_n", 0], ["observe"], ["is_complete"], ["observe"]]
             elif c == "sample" and samples:
                 ops += [["sample"], ["observe"]]
             elif readonly:
